@@ -210,8 +210,8 @@ pub fn end_step() -> StepInfo {
 
 /// A task that has not touched shared state yet: suspending it before its first synchronisation operation is
 /// the same as starting it later (which the environment's own choices already cover), so that point is skipped.
-pub fn set_fresh(fresh: bool) {
-    FRESH.with(|f| f.set(fresh));
+pub fn set_fresh(fresh: bool) -> bool {
+    FRESH.with(|f| f.replace(fresh))
 }
 
 /// Suspended tasks continue (they are queued behind whatever became runnable before this call).
